@@ -455,7 +455,7 @@ def drive(prop, tier, seed, stage_dir, only_case=None, nworkers=None):
         "wall_s": round(time.time() - t_start, 2),
         "violations": len(by_case),
     }
-    if only_case is None:
+    if only_case is None and not os.environ.get("VERIF_NO_EVIDENCE"):
         os.makedirs(os.path.join(VERIF, "evidence"), exist_ok=True)
         evpath = os.path.join(VERIF, "evidence", prop + ".json")
         tmp = evpath + ".tmp%d" % os.getpid()
